@@ -3,6 +3,8 @@ package ctfe
 import (
 	"bytes"
 	"context"
+	"crypto/sha256"
+	stdasn1 "encoding/asn1"
 	"fmt"
 	"strings"
 	"time"
@@ -11,6 +13,7 @@ import (
 	"github.com/google/certificate-transparency-go/trillian/ctfe/cache/lru"
 
 	"verif/sim/kernel"
+	"verif/sim/oracle"
 	"verif/sim/reflog"
 )
 
@@ -295,4 +298,60 @@ func (w *World) opByParty(party string) *Op {
 		}
 	}
 	return nil
+}
+
+// queuedExtraOK judges the extra data of a leaf handed to the backend by an instance that keeps issuance chains
+// outside it: either the full RFC 6962 extra data, or the same head (for a precertificate entry: the
+// precertificate) followed by a hash - and then the chain store must hold, under that hash, bytes that hash to it
+// and that are the validated chain after the leaf (a DER sequence of certificates, decoded with encoding/asn1).
+// A leaf-only path has no chain to refer to: an empty hash stands for it. "" = fine.
+func (x *extState) queuedExtraOK(sub *Submission, extra []byte) string {
+	if sub.extraOK(extra) {
+		return ""
+	}
+	head := []byte{}
+	if sub.IsPre {
+		head = oracle.PrecertExtraData(sub.Leaf.DER, nil)
+		head = head[:len(head)-3] // without the (empty) chain vector
+	}
+	if !bytes.HasPrefix(extra, head) || len(extra) < len(head)+2 {
+		return fmt.Sprintf("%d bytes that are neither the full extra data nor head + hash", len(extra))
+	}
+	tail := extra[len(head):]
+	n := int(tail[0])<<8 | int(tail[1])
+	if len(tail) != 2+n {
+		return fmt.Sprintf("%d bytes that are neither the full extra data (%d bytes) nor head + one hash", len(extra), len(sub.ExtraData()))
+	}
+	h := tail[2:]
+	if n == 0 {
+		if len(sub.FullChainAfterLeaf()) == 0 {
+			return ""
+		}
+		return fmt.Sprintf("no chain and no hash, but the validated chain has %d certificates after the leaf", len(sub.FullChainAfterLeaf()))
+	}
+	x.store.mu.Lock()
+	row, ok := x.store.Rows[string(h)]
+	row = bytes.Clone(row)
+	x.store.mu.Unlock()
+	if !ok {
+		return fmt.Sprintf("refers to its chain by hash %x, which the chain store does not hold", h)
+	}
+	if sum := sha256.Sum256(row); !bytes.Equal(sum[:], h) {
+		return fmt.Sprintf("the chain store holds under %x bytes that do not hash to it", h)
+	}
+	// the stored form is whatever the front end chose (it is the only reader); today: DER SEQUENCE OF SEQUENCE { OCTET STRING }.
+	// Either nesting is accepted - the content is what is judged.
+	var wrapped []struct{ Data []byte }
+	var chain [][]byte
+	if rest, err := stdasn1.Unmarshal(row, &wrapped); err == nil && len(rest) == 0 {
+		for _, c := range wrapped {
+			chain = append(chain, c.Data)
+		}
+	} else if rest, err := stdasn1.Unmarshal(row, &chain); err != nil || len(rest) != 0 {
+		return fmt.Sprintf("the stored chain under %x does not decode as a DER sequence of certificates (%v, %d trailing bytes)", h, err, len(rest))
+	}
+	if d := sub.chainOK(chain); d != "" {
+		return "the stored chain is not the validated chain: " + d
+	}
+	return ""
 }
